@@ -236,6 +236,12 @@ func execConcCase(c Case) {
 			o := map[string]interface{}{"loc": name, "op": "size"}
 			execLocOp(w, o)
 			out = append(out, o)
+			// what a dispatch sees at the end (the parsed-rule cache must agree with the stored rules)
+			for _, v := range []string{"x", "y"} {
+				e := map[string]interface{}{"loc": name, "op": "event", "event": map[string]interface{}{"k": v}}
+				execLocOp(w, e)
+				out = append(out, e)
+			}
 		}
 		return out
 	}
